@@ -47,6 +47,7 @@ type discardProc struct {
 	n        int
 	onEntry  func(n int)
 	failFrom int // > 0: every entry from this one on is refused (a store which starts failing in the middle of a load)
+	maxStack uint64
 }
 
 func (d *discardProc) StartUpdateCrl(*crlreader.CRLMetaInfo) error { return nil }
@@ -351,13 +352,24 @@ func c17FootprintWorker(path string) int {
 	runtime.GC()
 	runtime.ReadMemStats(&m0)
 	proc := &discardProc{}
+	// the stack in use, sampled from inside the consumer (every 65536th entry): reading entry k must not sit on top of k frames
+	proc.onEntry = func(k int) {
+		if k%65536 == 0 {
+			var m runtime.MemStats
+			runtime.ReadMemStats(&m)
+			if m.StackInuse > proc.maxStack {
+				proc.maxStack = m.StackInuse
+			}
+		}
+	}
 	_, err := crlreader.StreamingCRLFileReader{}.ReadCRL(proc, path)
 	runtime.ReadMemStats(&m1)
 	e := ""
 	if err != nil {
 		e = err.Error()
 	}
-	b, _ := json.Marshal(map[string]interface{}{"heap_sys_before": m0.HeapSys, "heap_sys_after": m1.HeapSys, "entries": proc.n, "err": e})
+	b, _ := json.Marshal(map[string]interface{}{"heap_sys_before": m0.HeapSys, "heap_sys_after": m1.HeapSys, "entries": proc.n, "err": e,
+		"stack_sys_before": m0.StackSys, "stack_sys_after": m1.StackSys, "stack_inuse_max": proc.maxStack})
 	fmt.Println(string(b))
 	return 0
 }
@@ -488,6 +500,9 @@ func c17Footprint(chk *fw.Check, name string, doc []byte, n int, dir string) int
 		After   int64  `json:"heap_sys_after"`
 		Entries int    `json:"entries"`
 		Err     string `json:"err"`
+		StackB  int64  `json:"stack_sys_before"`
+		StackA  int64  `json:"stack_sys_after"`
+		StackM  int64  `json:"stack_inuse_max"`
 	}
 	if err != nil || json.Unmarshal(bytes.TrimSpace(out), &r) != nil {
 		chk.Violation("C17|footprint-worker-died|"+name, fmt.Sprintf("reading the %s CRL (%d entries, %d bytes) in a fresh process failed: %v %s", name, n, len(doc), err, firstLines(string(out), 3)), nil)
@@ -496,6 +511,9 @@ func c17Footprint(chk *fw.Check, name string, doc []byte, n int, dir string) int
 	if r.Err != "" || r.Entries != n {
 		chk.Violation("C17|reader-failed|"+name, fmt.Sprintf("reading a well-formed CRL (%s, %d entries) failed: %s (%d entries seen)", name, n, r.Err, r.Entries), nil)
 		return -1
+	}
+	if r.StackA-r.StackB > 8*mib || r.StackM > 8*mib {
+		chk.Violation("C17|reader-stack-grows|"+name, fmt.Sprintf("reading the %s CRL (%d entries): the goroutine stacks grew from %d to %d bytes (in use at most %d inside the entry loop; bound 8 MiB independent of the size)", name, n, r.StackB, r.StackA, r.StackM), map[string]interface{}{"family": name, "n": n})
 	}
 	g := r.After - r.Before
 	if g > 32*mib {
